@@ -79,6 +79,19 @@ Definition incoming (fuel : nat) (subj new : hdr) : brun :=
   | _ => r
   end.
 
+(** networkHead(), the branch in which the head request s.head.Head(WithTrustedHead(sbjHead))
+    came back with (newHead, a *VerifyError with SoftFailure): the head goes through
+    incomingNetworkHead exactly like a head delivered by the subscriber. An error keeps the old
+    subjective head as the answer and nothing else happens; on success the code falls through to
+    "newHead.Height() <= sbjHead.Height() => answer sbjHead", else setLocalHead(newHead) once more
+    (it already is the local head) and Head() answers with it. Result: the run and the answered head. *)
+Definition head_soft (fuel : nat) (subj new : hdr) : brun * hdr :=
+  let r := incoming fuel subj new in
+  match b_verdict r with
+  | Accept => if h_height new <=? h_height subj then (r, subj) else (r, new)
+  | _ => (r, subj)
+  end.
+
 End bifurcate.
 
 (** Syncer.Head() afterwards: the last header handed to setLocalHead (each one is
@@ -89,3 +102,9 @@ Definition head_after (subj : hdr) (r : brun) : hdr := last (b_promoted r) subj.
     when the getter answers with the asked heights: (D+1) * (bits(D)+1) *)
 Definition bound (D : N) : N := (D + 1) * (N.size D + 1).
 Definition fuel_bound (D : N) : nat := N.to_nat (bound D).
+
+(** the Store's head after the given headers went through setLocalHead in order: syncStore.Append
+    of a single header above the head stores it iff it is adjacent to the head *)
+Definition store_step (st c : hdr) : hdr :=
+  if h_height c =? wrap64 (h_height st + 1) then c else st.
+Definition store_after (st : hdr) (promoted : list hdr) : hdr := fold_left store_step promoted st.
